@@ -6,6 +6,7 @@ import (
 	"time"
 
 	"perun.network/go-perun/wire"
+	wirenet "perun.network/go-perun/wire/net"
 	"verif/engine/report"
 	"verif/harness/codec/cat"
 )
@@ -109,8 +110,12 @@ func buildStream(byName map[string]cat.Envelope, names []string, s cat.Ser) (*st
 // run delivers the stream with one cut set and judges the result; returns the clause violated ("" = none).
 func (h *c16) run(sc *streamCase, cs cutSet) (clause, detail string) {
 	rd := &stream{data: sc.data, cuts: cs.Cuts, chunk: cs.Chunk}
+	// the stream is read the way a client reads it: through the real connection type of wire/net
+	// (one connection for the whole stream), which hands the reader to the serializer
+	conn := wirenet.NewIoConn(openConn{rd}, sc.Ser.Serializer())
 	for i := range sc.ref {
-		env, err, panicked := decodeEnv(sc.Ser, rd)
+		var env *wire.Envelope
+		err, panicked := guard(func() (e error) { env, e = conn.Recv(); return })
 		switch {
 		case rd.past:
 			return "read-past-frame", fmt.Sprintf("envelope %d: the decoder issued a Read after all %d bytes had been delivered (err=%v)", i, len(sc.data), err)
